@@ -343,6 +343,8 @@ class Unit:
         for pos, lines in proofs:
             if pos == 'start':
                 ins.append((1, 'proof', lines))
+            elif pos == 'end':
+                ins.append((len(body) - 1, 'proof', lines))      # before the closing brace (unit-returning fns)
             else:
                 m = re.match(r'before\s+/(.*)/\s*(?:#(\d+))?$', pos)
                 if not m:
